@@ -213,7 +213,8 @@ def judge(s, r):
     v = []
     fam = s["family"]
     cls = scenario_class(s)
-    base = {"family": fam, "class": cls}
+    fault = next((f for f in ("worker_panic", "bad_unit", "source_fail", "no_terminator", "sink_error") if f in cls.split("+")), "none")
+    base = {"family": fam, "class": cls, "fault": fault}
     if r.get("step_limit"):
         raise ToolError(f"step limit reached in scenario {s['id']} (infrastructure bound, not a verdict)")
     if r["deadlock"]:
